@@ -299,6 +299,7 @@ func child(seed int64, n int, dir string) {
 	round := 0
 	runLoadMatrix(g, scratch, os.Getenv("VERIF_TIER") == "thorough", &cs, sigs)
 	runCorrelated(g, scratch, os.Getenv("VERIF_TIER") == "thorough", &cs, sigs)
+	runSpecial(g, scratch, os.Getenv("VERIF_TIER") == "thorough", &cs, sigs)
 	n += cs.Queries // the matrix comes on top of the n generated statements
 	for cs.Queries < n {
 		repo, err := os.MkdirTemp(scratch, "c13repo-")
